@@ -87,5 +87,5 @@ func c05PanicToFatal(r *Run) {
 			return true
 		})
 	}
-	r.Require(R, 4)
+	r.Require(R, 2)
 }
